@@ -1,5 +1,5 @@
 PROP = {
-    "thm": ["Umya.Thm.C19", "Umya.Thm.C19Gen", "Umya.Thm.C19Dispatch"],
+    "thm": ["Umya.Thm.C19", "Umya.Thm.C19Gen", "Umya.Thm.C19Dispatch", "Umya.Thm.C19Regex"],
     "harness": "c19",
     "level": "proof",
     "stateful": False,
@@ -35,7 +35,7 @@ PROP = {
                   "tied behaviourally by the disp stream.",
     "expect_theorems": ["C19_fixed", "C19_percent", "C19_pattern", "C19_shape", "C19_split_in_range", "C19_general", "C19_general_cell",
                         "C19_date_no_panic", "C19_date_out_of_range", "C19_date_checked_agrees", "C19_date_codes_covered",
-                        "C19_date_tables_match_source", "C19_date_checked_matches_source",
+                        "C19_date_tables_match_source", "C19_date_checked_matches_source", "C19_regex_matches_source",
                         "C19_builtin_ids", "C19_builtin_plans_ok", "C19_builtin_no_panic", "C19_fraction_no_panic",
                         "C19_scientific_no_panic", "C19_accounting_no_panic", "C19_accounting44_no_panic", "C19_text_no_panic",
                         "C19_dispatch_matches_fixed", "C19_dispatch_date_ids", "C19_dispatch_date_agrees",
